@@ -32,6 +32,12 @@ LUA_FILES = {
     'incn.lua': b'lc=3',
     'sub/s.lua': b'-- sub\nld=4\n',
     'nest.lua': b'#include inc.lua\nq=1\n',      # an include line inside an included file is not expanded
+    # names with an extension-like piece before the real extension (Lua exported from a cart; a directory named like a
+    # cart); 'plain.lua' exists, 'plain.lua.p8' does not
+    'inc0.p8.lua': b'exported=1\n',
+    'libs.p8/util.lua': b'indir=2\n',
+    'plain.lua': b'pl=3\n',
+    'a.lua.lua': b'dd=4\n',
 }
 TAB = b'-->8\n'
 CART_CODE = {
@@ -78,6 +84,7 @@ def tabs_of(code_lines):
 def line_kinds():
     kinds = [('plain', b'a=1\n'), ('plain', b'b=2 -- #include inc.lua\n')]
     kinds += [('lua', 'inc.lua'), ('lua', 'incn.lua'), ('lua', 'sub/s.lua'), ('lua', 'nest.lua'), ('lua', 'lnk.lua')]
+    kinds += [('lua', 'inc0.p8.lua'), ('lua', 'libs.p8/util.lua'), ('lua', 'a.lua.lua'), ('missing', 'plain.lua.p8'), ('missing', 'inc.lua.lua')]
     kinds += [('p8', 'inc0', None), ('p8', 'inc2', None), ('p8', 'inc3e', None)]
     kinds += [('p8', 'inc2', n) for n in range(0, 5)]
     kinds += [('p8', 'inc0', n) for n in range(0, 2)]
@@ -148,6 +155,7 @@ def setup_carts_dir():
     d = setup_dir(proj)
     os.makedirs(os.path.join(carts, 'sub'), exist_ok=True)
     for name in LUA_FILES:
+        os.makedirs(os.path.dirname(os.path.join(carts, name)), exist_ok=True)
         open(os.path.join(carts, name), 'wb').write(b'decoy=1\n')
     for name in CART_CODE:
         open(os.path.join(carts, name + '.p8'), 'wb').write(p8_text([b'decoy=2\n']))
@@ -162,6 +170,7 @@ def setup_dir(d=None):
     d = d or tempfile.mkdtemp(prefix='c20_')
     os.makedirs(os.path.join(d, 'sub'))
     for name, data in LUA_FILES.items():
+        os.makedirs(os.path.dirname(os.path.join(d, name)), exist_ok=True)
         open(os.path.join(d, name), 'wb').write(data)
     store = tempfile.mkdtemp(prefix='c20store_')
     open(os.path.join(store, 'real.lua'), 'wb').write(LINKED_LUA)
